@@ -91,7 +91,7 @@ def rand_cfg(rng, mtu=None, wifi=None, mac=None):
         wifi = rng.random() < 0.4
     cfg = dict(mtu=mtu, mac=mac or rand_mac(rng),
                flags=int.from_bytes(edge_word(rng, 2), "big"),
-               iftype=int.from_bytes(edge_word(rng, 4), "big"),
+               iftype=int.from_bytes(edge_word(rng, 4), "big") if rng.random() < 0.6 else rng.choice([0, 1, 6, 6, 24, 53, 71, 71, 131, 144, 161, 209]),      # IANA ifType values too
                ipv4=edge_word(rng, 4), ipv6=edge_word(rng, 16),
                speed=int.from_bytes(edge_word(rng, 4), "big"),
                wifi=1 if wifi else 0, conv=rng.randint(0, 1), rxseed=rng.randint(1, 2 ** 31), fail=0)
@@ -99,6 +99,17 @@ def rand_cfg(rng, mtu=None, wifi=None, mac=None):
         cfg.update(mode=rng.choice([0, 1, 2, 3, 255]), bssid=edge_word(rng, 6), ssid=rand_name(rng),
                    rate=int.from_bytes(edge_word(rng, 2), "big"), rssi=rng.randint(-128, 127),
                    phy=rng.randint(0, 10))
+    # values a real platform reports (a conversion or a special case keyed on a particular well-known value shows here)
+    if rng.random() < 0.35:
+        cfg["speed"] = rng.choice([0, 100000, 1000000, 10000000, 100000000, 25000000, 540000, 0xFFFFFFFF])
+        cfg["flags"] = rng.choice([0, 0x8000, 0x4000, 0x2000, 0x1000, 0x0800, 0xC000, 0xF800, 0xFFFF])
+        cfg["ipv4"] = rng.choice([bytes([192, 168, 1, 10]), bytes([10, 0, 0, 1]), bytes([169, 254, 7, 9]), bytes(4), bytes([127, 0, 0, 1]),
+                                  b"\xff" * 4, bytes([224, 0, 0, 1]), bytes([172, 16, 254, 254])])
+        cfg["ipv6"] = rng.choice([bytes.fromhex("fe80000000000000021122fffe334455"), bytes(15) + b"\x01", bytes(16), b"\xff" * 16,
+                                  bytes.fromhex("20010db8000000000000000000000001"), bytes.fromhex("ff020000000000000000000000000001")])
+        if wifi:
+            cfg.update(mode=rng.choice([0, 1, 2]), rate=rng.choice([2, 22, 108, 300, 1200, 0xFFFF]), rssi=rng.choice([-30, -55, -70, -90, -100, 0]),
+                       phy=rng.choice([1, 2, 4, 5, 6, 7, 8]))
     # attributes that are related to each other: an IPv4-mapped / IPv4-compatible IPv6 address, an access point that is the
     # station itself, addresses that repeat one another
     r = rng.random()
